@@ -369,6 +369,10 @@ func (g *lgen) srcLeaf(allowUnbounded bool) Source {
 		}
 	}
 	g.used = append(g.used, name)
+	if name == "world" && g.pct(g.cfg.POverdraft/2) {
+		// a (pointless but legal) bounded overdraft on @world
+		return &SrcOverdraft{Addr: &Account{Name: "world"}, Bounded: g.freeMonetary(g.asset)}
+	}
 	if name != "world" && g.pct(g.cfg.POverdraft) {
 		if allowUnbounded && g.pct(g.cfg.PUnbounded) {
 			g.c.Tags["unbounded:"+name] = true
@@ -464,8 +468,7 @@ func (g *lgen) stmt() {
 		if g.r.Chance(1, 4) {
 			sv = &SentValue{All: true, E: g.assetExpr(g.asset)}
 		} else {
-			e, _ := g.monetaryExpr(g.asset, SmallOrBig(g.r, g.cfg.PBig), false)
-			sv = &SentValue{E: e}
+			sv = &SentValue{E: g.freeMonetary(g.asset)}
 		}
 		g.c.Script.Stmts = append(g.c.Script.Stmts, &Save{Sent: sv, From: g.accountExpr(acct)})
 		g.c.Tune = append(g.c.Tune, nil)
